@@ -57,7 +57,10 @@ def handle (op : String) (args : List String) : String :=
           | none =>
             match UOB.contLL S A B with
             | some s => "ok 4 " ++ toString s ++ " " ++ " ".intercalate (UOB.coreOpsCont s A B)
-            | none => "ok 0"
+            | none =>
+              match UOB.flatMK S A B with
+              | some (s, _) => "ok 5 " ++ toString s ++ " " ++ " ".intercalate (UOB.coreOpsM S s A B)
+              | none => "ok 0"
   | _, _ => "err BadOp"
 
 end LyModel.Diff.Drv
